@@ -204,21 +204,24 @@ ClientResult(b, query) ==
 
 ----------------------------------------------------------------------------
 (* C37: what a server port must do with request bytes b (one UDP datagram / one TCP message).
-   [k |-> "none"]      no user callback (malformed, or not a query); any response is acceptable
+   [k |-> "none", why] no user callback (malformed, or not a query); any response is acceptable
+                       why = "hdr" | "opcode" | "q" | "rr" (sections after the questions malformed)
    [k |-> "notimpl"]   no user callback; a response with RCODE 4 (NOTIMPL)
    [k |-> "call", q, rd, limit]   user callback with exactly these questions; limit = reply size limit over UDP
    [k |-> "open", ...] irregular but readable: "call" with this data, or "none" *)
+(* names the evdns API can hand to the callback: C strings with '.' between labels *)
+Representable(qs) == \A i \in 1..Len(qs) : \A j \in 1..Len(qs[i].n) : \A x \in 1..Len(qs[i].n[j]) : qs[i].n[j][x] \notin {0, 46}
 ServerResult(b) ==
-  LET d == Decode(b) IN
-  IF ~d.hdr \/ d.qr = 1 THEN [k |-> "none"]
-  ELSE IF d.opcode # 0 THEN [k |-> "notimpl"]
-  ELSE IF ~d.ok THEN [k |-> "none"]
+  LET d == Decode(b)
+      qv == [i \in 1..Len(d.q) |-> [n |-> d.q[i].n, t |-> d.q[i].t, c |-> d.q[i].c]] IN
+  IF ~d.hdr \/ d.qr = 1 THEN [k |-> "none", why |-> "hdr"]
+  ELSE IF d.opcode # 0 THEN (IF d.ok /\ d.exact /\ d.strict THEN [k |-> "notimpl"] ELSE [k |-> "none", why |-> "opcode"])
+  ELSE IF ~d.qok THEN [k |-> "none", why |-> "q"]
+  ELSE IF ~d.ok THEN [k |-> "none", why |-> "rr", q |-> qv, rd |-> d.rd]   \* the questions are readable, what follows is not
   ELSE LET opts == SelectSeq(d.ar, LAMBDA r : r.t = TYPE_OPT)
            limit == IF opts = <<>> THEN 512 ELSE Max(512, opts[1].c)
-           call == [q |-> [i \in 1..Len(d.q) |-> [n |-> d.q[i].n, t |-> d.q[i].t, c |-> d.q[i].c]],
-                    rd |-> d.rd, limit |-> limit, edns |-> opts # <<>>]
+           call == [q |-> qv, rd |-> d.rd, limit |-> limit, edns |-> opts # <<>>, repr |-> Representable(d.q)]
        IN IF d.exact /\ d.strict /\ Len(d.q) >= 1 /\ d.tc = 0 /\ d.rcode = 0 /\ Len(opts) <= 1
-             /\ (\A i \in 1..Len(d.q) : Len(d.q[i].n) >= 0)
           THEN [k |-> "call"] @@ call ELSE [k |-> "open"] @@ call
 
 ----------------------------------------------------------------------------
